@@ -46,8 +46,8 @@ def main():
             rec["tests_pass_with_change"] = "100% tests passed" in o
             san = os.path.exists(demo) and "fsanitize" in open(demo, errors="replace").read() and "--nosan" not in sys.argv
             if os.path.exists(demo):
-                b1, o1 = build_demo(demo, wt, wt + "/demo_with", san); r1, o1r = sh("timeout 20 %s/demo_with" % wt) if b1 == 0 else (999, o1)
-                b0, o0 = build_demo(demo, "/repo", wt + "/demo_without", san); r0, o0r = sh("timeout 20 %s/demo_without" % wt) if b0 == 0 else (999, o0)
+                b1, o1 = build_demo(demo, wt, wt + "/demo_with", san); r1, o1r = sh("timeout %s %s/demo_with" % (os.environ.get("DEMO_TIMEOUT", "20"), wt)) if b1 == 0 else (999, o1)
+                b0, o0 = build_demo(demo, "/repo", wt + "/demo_without", san); r0, o0r = sh("timeout %s %s/demo_without" % (os.environ.get("DEMO_TIMEOUT", "20"), wt)) if b0 == 0 else (999, o0)
                 rec["demo_with_change_rc"] = r1; rec["demo_without_change_rc"] = r0
                 rec["demo_output_with_change"] = (o1r if b1 == 0 else o1)[-300:]
             rec["confirmed"] = bool(rec.get("tests_pass_with_change") and rec.get("demo_with_change_rc", 0) not in (0, 999) and rec.get("demo_without_change_rc", 1) == 0)
